@@ -235,6 +235,9 @@ def _walks_parent_chain(loop) -> bool:
 
 
 def run_extra(ctx: Ctx):
+    # ---------------------------------------------------------------- R05.10 every duration parser tells minutes from months
+    from .common import duration_unit_rule
+    duration_unit_rule(ctx, "R05.10")
     # ---------------------------------------------------------------- R05.9 answers never come from state that outlives the question
     from .common import process_state_rule
     process_state_rule(ctx, "R05.9", [ctx.repo.func("Project.schedule"), ctx.repo.func("ProjectFileParser.parse")],
